@@ -47,7 +47,7 @@ LEVEL_NOTE = (
     "compared within 1e-9)."
 )
 PROP_MODULES = ["Scico.Props.C13"]
-EXTRA_TARGETS = ["Drv.Block", "Scico.Proofs.BlockLists"]
+EXTRA_TARGETS = ["Drv.Block", "Scico.Proofs.BlockLists", "Scico.Proofs.BlockSource"]
 DRIVER = "Block"
 FILES = [
     "scico/numpy/_blockarray.py",
@@ -85,7 +85,12 @@ KNOWN_TUPLE = "map-blocks-tuple-results"
 def generate(ctx):
     t = translate_lists.generate()
     ctx.extra["wrapped_name_tables"] = {k: len(v) for k, v in t.items()}
-    return [("Scico.Generated.WrappedNames", "wrapped-name tables: reductions also block-mapped, one wrapper per name, wrapper order, promised operators lifted")]
+    import block_translate
+
+    src = block_translate.generate("block")
+    ctx.extra["source_skeletons"] = {k: len(v) for k, v in src}
+    return [("Scico.Generated.WrappedNames", "wrapped-name tables: reductions also block-mapped, one wrapper per name, wrapper order, promised operators lifted; lifted attributes; operators; namespace"),
+            ("Scico.Generated.BlockSource", "normalised decision structure of the 22 function bodies the model transcribes (_blockarray.py, _wrappers.py, util.py, random.py) = pinned skeletons")]
 
 
 class Env:
@@ -1185,6 +1190,53 @@ def section_methods(env, ctx, model):
                 ctx.disagree("block.getitem", {"n": n, "k": k}, show_impl(impl), mi)
 
 
+def section_sequence(env, ctx, model):
+    """a block array as a sequence: iteration (legacy protocol), `len`, `bool`, `reversed`, `tuple`, `zip`, unpacking; and
+    lifted methods called WITH block-array arguments (every block's method receives the whole argument: `liftMethod`)"""
+    rng = ctx.rng
+    jnp, BA = env.jnp, env.BlockArray
+    for n in range(0, 5):
+        x = BA([jnp.full((i + 1,), float(i)) for i in range(n)])
+        calls = {"n": 0}
+        orig = BA.__getitem__
+
+        checks = {
+            "iter": lambda: list(iter(x)), "tuple": lambda: list(tuple(x)), "for": lambda: [b for b in x], "reversed": lambda: list(reversed(list(reversed(x)))),
+            "zip": lambda: [a for a, _ in zip(x, x)], "unpack": lambda: (lambda *bs: list(bs))(*x), "len": lambda: len(x), "bool": lambda: bool(x),
+        }
+        for nm, f in checks.items():
+            r = impl_call(f, [], {})
+            want = n if nm == "len" else ((n > 0) if nm == "bool" else None)
+            good = r[0] == "ok" and ((r[1] == want) if want is not None else (len(r[1]) == n and all(a is b for a, b in zip(r[1], x.arrays))))
+            ctx.case({"section": "sequence", "op": nm, "n": n}, ("sequence", nm, n) if n >= 2 else None)
+            ctx.count(f"sequence:{nm}")
+            if not good:
+                fail = {"expression": {"iter": "list(iter(x))", "tuple": "tuple(x)", "for": "[b for b in x]", "reversed": "reversed(reversed(x))", "zip": "zip(x, x)", "unpack": "f(*x)", "len": "len(x)", "bool": "bool(x)"}[nm],
+                        "n_blocks": n, "scico_result": show_impl(r) if r[0] == "err" else (r[1] if want is not None else be.describe(r[1])), "expected": want if want is not None else "the blocks, in order"}
+                ctx.disagree("block.sequence", {"section": "sequence", "op": nm, "n": n}, fail["scico_result"], fail["expected"], oracle=lambda c, fail=fail: fail)
+        # the model's iteration: n + 1 reads
+        if orig is not None:
+            mi = model.call("iter", n=n)
+            if mi != list(range(n)):
+                ctx.disagree("block.iter-model", {"n": n}, list(range(n)), mi)
+    # methods with block-array arguments: per block, with the same (whole) argument
+    x = gen_block(env, rng, "c", "x")
+    y = gen_block(env, rng, "c", "y")
+    for name, args in [("dot", [y]), ("clip", [y, None]), ("__add__", [y]), ("reshape", [y]), ("take", [y]), ("astype", [y]), ("searchsorted", [y])]:
+        if name not in env._blockarray.da_methods and not name.startswith("__"):
+            continue
+        impl = impl_call(lambda: getattr(x, name)(*args), [], {})
+        per = [impl_call(lambda b=b: getattr(b, name)(*args), [], {}) for b in x.arrays]
+        ctx.case({"section": "method-block-arg", "name": name}, ("method-block-arg", name))
+        ctx.count(f"method-block-arg:{name}:{impl[0] if impl[0] == 'ok' else impl[1]}")
+        if name == "__add__":
+            continue  # lifted operator: block-wise (covered by the operator section); listed for the histogram only
+        first_err = next((p for p in per if p[0] == "err"), None)
+        good = (impl == first_err) if first_err is not None else (impl[0] == "ok" and isinstance(impl[1], (BA, tuple)) and all(same(p[1], (impl[1].arrays if isinstance(impl[1], BA) else impl[1])[i]) for i, p in enumerate(per)))
+        if not good:
+            ctx.disagree("block.method-block-arg", {"section": "method-block-arg", "name": name}, show_impl(impl), [show_impl(p) for p in per])
+
+
 def section_slices(env, ctx, model):
     """`x[start:stop:step]` against the model (`getSlice`): exhaustive over n <= 4, start/stop in {None, -6..6}, step in
     {None, -3..3} in the thorough tier, a random sample of it in the quick tier"""
@@ -2010,7 +2062,7 @@ def correspond(ctx, model):
     timing = {}
     # the sections that evaluate the property itself on small objects come first: at most 5 violations are written out
     for sec in (run_corpus, section_history, section_setitem, section_transparency, section_trees, section_names, section_reductions, section_creation,
-                section_operators, section_nonlifted, section_methods, section_slices, section_setslice, section_wrappers, section_pytree, section_random):
+                section_operators, section_nonlifted, section_methods, section_sequence, section_slices, section_setslice, section_wrappers, section_pytree, section_random):
         t0 = time.time()
         try:
             sec(env, ctx, model)
